@@ -312,6 +312,29 @@ pub fn prelude(kind: i64, seed: u64, m: &Model, ctx: &mut Ctx) {
                 ctx.probe("prelude: a different game was processed successfully before the scenario");
             }
         }
+        6 => {
+            // a DAMAGED copy of the file is read first (its text fields are broken in ways the decoders
+            // must reject): a decoder kept across calls must not carry anything over
+            use crate::layout::gs;
+            let mut b = m.bytes.clone();
+            let so = m.events[1].off; // Game Start
+            let slen = m.events[1].len;
+            let put = |b: &mut Vec<u8>, off: usize, bytes: &[u8]| {
+                if off + bytes.len() <= slen {
+                    b[so + off..so + off + bytes.len()].copy_from_slice(bytes);
+                }
+            };
+            match rng.below(5) {
+                0 => put(&mut b, gs::NAME_TAG + 16 * rng.usize_below(4), &[0x82, 0x00]), // lone Shift-JIS lead byte
+                1 => put(&mut b, gs::NETPLAY_NAME + 31 * rng.usize_below(4), &[b'a', 0x93, 0x00]),
+                2 => put(&mut b, gs::CONNECT_CODE + 10 * rng.usize_below(4), &[0x81, 0x00]),
+                3 => put(&mut b, gs::SLIPPI_UID + 29 * rng.usize_below(4), &[0xC3, 0x00]), // truncated UTF-8
+                _ => put(&mut b, gs::NAME_TAG, &[0x83, 0x00]),
+            }
+            let ro = read_slp(&b, &StreamSpec::default(), &[], OptsSpec::default());
+            ctx.probe_if(ro.res.is_err(), "prelude: a file with a damaged text field was rejected before the scenario");
+            ctx.fault("prelude_damaged_read", 1);
+        }
         _ => {}
     }
 }
